@@ -1,8 +1,9 @@
 /- all line-protocol handlers -/
 import PhotVerif.Driver.Geom
+import PhotVerif.Driver.ApSum
 namespace PhotVerif.Driver
 
-def handlers : List (String → List String → Option String) := [handleGeom, handleMask]
+def handlers : List (String → List String → Option String) := [handleGeom, handleMask, handleApSum]
 
 def dispatch (line : String) : String :=
   match tokens line with
